@@ -1247,6 +1247,15 @@ public:
             std::set<const Stmt*> covered;
             for (auto* s : stmts)
                 collectSameBlock(s, covered);
+            // constructor initialisers appear both as CFGStmt and as CFGInitializer: keep the latter
+            std::set<const Stmt*> initExprs;
+            for (auto& el : *b)
+                if (auto ci = el.getAs<CFGInitializer>())
+                    if (auto* ie = ci->getInitializer()->getInit())
+                    {
+                        initExprs.insert(ie);
+                        initExprs.insert(strip(ie));
+                    }
             json::Array elems;
             for (auto& el : *b)
             {
@@ -1255,6 +1264,11 @@ public:
                     const Stmt* s = cs->getStmt();
                     if (covered.count(s))
                         continue;
+                    if (initExprs.count(s))
+                        continue;
+                    if (auto* ex0 = dyn_cast<Expr>(s))
+                        if (initExprs.count(strip(ex0)))
+                            continue;
                     // wrappers whose stripped form is covered / identical
                     if (auto* ex = dyn_cast<Expr>(s))
                     {
